@@ -23,7 +23,7 @@ MANIFEST = {
     "note": "Trusted: Lean kernel; db/index.js as the syntax of the database; tools/x86forms.py (instantiation of a form), gen_*.py; "
             "lean/implemented_forms.txt (vendored: what the pinned release accepts); harness/driver diff. The encoder leg is tested, not proved.",
 }
-MODS = ["AsmjitVerif.Props.C13", "AsmjitVerif.Props.C13X86"]
+MODS = ["AsmjitVerif.Props.C13", "AsmjitVerif.Props.C13X86", "AsmjitVerif.Props.C13Sound"]
 
 GROUP = {"swap": "operands", "drop": "operands", "gap": "operands", "dup": "operands", "extra-imm": "operands",
          "reg-size": "reg", "reg-id": "reg", "reg->mem": "reg", "imm-range": "imm", "imm->label": "imm", "label->imm": "imm"}
@@ -62,6 +62,8 @@ def generate():
         raise gen_x86forms.TranslateError("only %d implemented database forms - vendored list and database no longer match" % len(allow))
     id2name = {i: n for n, i in name2id.items()}
     for rel, content in gen_x86forms.render_buckets(sig, id2name, allow, excl).items():
+        vlib.gen_write(rel, content)
+    for rel, content in gen_x86forms.render_sound(db, name2id, archs["x86"]["count"]).items():
         vlib.gen_write(rel, content)
     for old in list((vlib.LEAN / "AsmjitVerif" / "Gen").glob("X86FormsChecked*.lean")) + [vlib.LEAN / "AsmjitVerif" / "Gen" / "X86Forms.lean"]:
         if old.exists():
